@@ -167,6 +167,93 @@ def observe_substore(ctx_cmd, ctx_data):
             "sent": [(s.kind, getattr(s, "Status", None), c) for s, c in rig.sent]}
 
 
+def observe_negotiated(result_value, send_on):
+    """The set of accepted contexts as the real negotiation leaves it: a real requestor (AE.associate) proposes Verification in
+    contexts 1 and 3; a scripted acceptor accepts 1 and answers 3 with `result_value` (1-4: the rejections of PS3.8 Table 9-18,
+    5-255: reserved - anything but 0 is not an acceptance), then sends a C-ECHO-RQ on context `send_on`."""
+    import socket
+    import time
+    from neg_lab import recv_pdu
+    from pynetdicom import AE, build_context, evt
+    from pynetdicom.pdu import A_ASSOCIATE_AC, A_ASSOCIATE_RQ
+    from rig import echo_rq_bytes
+
+    V = "1.2.840.10008.1.1"
+    srv = socket.socket()
+    srv.bind(("127.0.0.1", 0))
+    srv.listen(1)
+    port = srv.getsockname()[1]
+    peer = {"answer": [], "closed": False}
+
+    def acceptor():
+        try:
+            c, _ = srv.accept()
+            c.settimeout(3)
+            raw = recv_pdu(c, 3.0)
+            rq = A_ASSOCIATE_RQ()
+            rq.decode(raw)
+            prim = rq.to_primitive()
+            prim.result = 0
+            res = []
+            for cx in prim.presentation_context_definition_list:
+                r = build_context(cx.abstract_syntax, cx.transfer_syntax[0])
+                r.context_id = cx.context_id
+                r.result = 0 if cx.context_id == 1 else 1
+                res.append(r)
+            prim.presentation_context_definition_results_list = res
+            prim.presentation_context_definition_list = []
+            ac = bytearray(A_ASSOCIATE_AC(prim).encode())
+            k = bytes(ac).index(b"\x21\x00", 74)            # first presentation context (AC) item: context 1, the next one is 3
+            k2 = bytes(ac).index(b"\x21\x00", k + 4)
+            assert ac[k2 + 4] == 3
+            ac[k2 + 6] = result_value
+            c.sendall(bytes(ac))
+            time.sleep(0.05)
+            c.sendall(echo_rq_bytes(7, send_on))
+            t0 = time.time()
+            while time.time() - t0 < 3:
+                b = recv_pdu(c, 0.5)
+                if b == b"":
+                    peer["closed"] = True
+                    break
+                if b:
+                    peer["answer"].append(b)
+                    if b[0] in (5, 7):
+                        break
+            c.close()
+        except Exception as e:  # noqa: BLE001
+            peer["exc"] = f"{type(e).__name__}: {e}"
+
+    t = threading.Thread(target=acceptor, daemon=True)
+    t.start()
+    log = []
+
+    def on_echo(event):
+        log.append(("EVT_C_ECHO", int(event.context.context_id)))
+        return 0x0000
+
+    ae = AE("REQUESTOR")
+    ae.acse_timeout = ae.dimse_timeout = ae.network_timeout = 3
+    ae.add_requested_context(V, "1.2.840.10008.1.2")
+    ae.add_requested_context(V, "1.2.840.10008.1.2.1")
+    a = ae.associate("127.0.0.1", port, evt_handlers=[(evt.EVT_C_ECHO, on_echo)])
+    accepted = sorted(int(cx.context_id) for cx in a.accepted_contexts) if a.is_established or a.accepted_contexts else []
+    t.join(6)
+    srv.close()
+    if "exc" in peer:
+        raise MachineryError("scripted acceptor: " + peer["exc"])
+    answered = False
+    for b in peer["answer"]:
+        if b[0] == 4 and b"\x30\x80" in b:              # a C-ECHO-RSP command field (8030H, little endian)
+            answered = True
+    aborted = any(b[0] == 7 for b in peer["answer"]) or a.is_aborted
+    if a.is_established:
+        a.abort()
+    return {"kind": "ECHO", "path": f"requestor/negotiated(result={result_value})", "accepted": [1], "ctxCmd": send_on, "ctxData": send_on,
+            "invoked": bool(log), "answered": answered, "aborted": bool(aborted), "exc": "", "log": log, "sent": [(b[0], len(b)) for b in peer["answer"]],
+            "api_accepted": accepted}
+
+
 def run(ctx: Ctx) -> int:
     warnings.simplefilter("ignore")
     r = must_ok(run_tlc("CtxGuard", workdir=ctx.work, workers=1))
@@ -190,6 +277,10 @@ def run(ctx: Ctx) -> int:
             obs.append(observe_acceptor(kind, c, d))
             if kind == "STORE":
                 obs.append(observe_acceptor(kind, c, d, chunked=True))
+    # the accepted set as the real negotiation leaves it (requestor side): every class of "not accepted" result value
+    for rv in (1, 2, 3, 4, 5, 128, 255):
+        obs.append(observe_negotiated(rv, 3))
+    obs.append(observe_negotiated(2, 1))       # control: a request on the accepted context is served
     for k, o in enumerate(obs):
         o["id"] = k + 1
     keep = ("id", "kind", "path", "accepted", "ctxCmd", "ctxData", "invoked", "answered")
